@@ -19,6 +19,8 @@ PROFILES = {
     'C10': dict(new=8, set=24, get=4, obs=8, bindI=12, bindE=8, reset=2, dele=14, move=3, evall=6, bev=4, hold=5, unobs=2, fault=0, user=0),
     'C11': dict(new=8, set=28, get=4, obs=10, bindI=12, bindE=4, reset=1, dele=3, move=22, evall=4, bev=2, hold=0, unobs=1, fault=0, user=0),
     'C13': dict(new=6, set=40, get=10, obs=4, bindI=12, bindE=10, reset=1, dele=1, move=2, evall=12, bev=2, hold=0, unobs=0, fault=0, user=0),
+    # C19: a random network, then state-restoring cycles unrolled W + K times around heapmark / heapcheck
+    'C19': dict(new=8, set=12, get=2, obs=8, bindI=14, bindE=8, reset=2, dele=2, move=6, evall=4, bev=3, hold=1, unobs=1, fault=0, user=0, cycle=7),
     'C16': dict(new=6, set=34, get=4, obs=8, bindI=12, bindE=6, reset=6, dele=8, move=2, evall=6, bev=2, hold=2, unobs=1, fault=6, user=1),
 }
 
@@ -305,6 +307,82 @@ class Gen:
         if p is not None:
             self.emit(f"pset {p} 13 0")
 
+    def cycle_body(self):
+        """one to three state-restoring templates instantiated on the current network; scratch names: property 900, evaluator 90,
+        held binding 90, observer handle 900 / label 9000 (never used by the other operations)"""
+        r = self.r
+        body = []
+        allp = list(self.props.keys())
+        for _ in range(r.choice([1, 1, 2, 3])):
+            t = r.choice(['move', 'move', 'bindreset', 'boundprop', 'obs', 'write', 'evaluator', 'hold', 'rebind', 'evall'])
+            if t == 'move':
+                s = self.pick(lambda p, d: p not in self.ahosts)
+                if s is not None:
+                    body += [f"pmovector {s} 900", f"pmoveassign {s} 900", "pdel 900"]
+            elif t == 'bindreset':
+                p = self.pick(lambda p, d: not d['bound'])
+                if p is not None:
+                    leaves = [q for q, d in self.props.items() if d['rank'] < self.props[p]['rank']]
+                    mode = -1 if (r.random() < 0.6 or not self.bevs) else r.choice(self.bevs)
+                    body += [f"pbind {p} {mode} {self.expr(leaves, r.choice([1, 2]))}"]
+                    if mode != -1 and r.random() < 0.5:
+                        body += [f"evalall {mode}"]
+                    body += [f"preset {p}"]
+            elif t == 'boundprop':
+                mode = -1 if (r.random() < 0.6 or not self.bevs) else r.choice(self.bevs)
+                body += [f"pbind 900 {mode} {self.expr(allp, r.choice([1, 2, 3]))}"]
+                q = self.pick(lambda p, d: not d['bound'])
+                if q is not None and r.random() < 0.6:
+                    body += [f"pset {q} {self.val()} 0"]
+                    if mode != -1:
+                        body += [f"evalall {mode}"]
+                body += ["pget 900", "pdel 900"]
+            elif t == 'obs':
+                p = self.pick()
+                if p is not None:
+                    body += [f"pobs {p} {r.choice([0, 1, 1, 2])} 9000 900"]
+                    q = self.pick(lambda q, d: not d['bound'])
+                    if q is not None and r.random() < 0.5:
+                        body += [f"pset {q} {self.val()} 0"]
+                    body += ["punobs 900"]
+            elif t == 'write':
+                p = self.pick(lambda p, d: not d['bound'])
+                if p is not None:
+                    body += [f"pset {p} {self.val()} {r.randrange(3)}", f"pset {p} {self.val()} {r.randrange(3)}"]
+            elif t == 'evaluator':
+                body += ["bevnew 90", f"pbind 900 90 {self.expr(allp, r.choice([1, 2]))}", "evalall 90", "pdel 900", "bevdel 90"]
+            elif t == 'hold':
+                mode = -1 if (r.random() < 0.5 or not self.bevs) else r.choice(self.bevs)
+                body += [f"bhold 90 {mode} {self.expr(allp, r.choice([1, 2]))}", "bholddel 90"]
+            elif t == 'rebind':
+                p = self.pick(lambda p, d: d['bound'])
+                if p is not None:
+                    leaves = [q for q, d in self.props.items() if d['rank'] < self.props[p]['rank']]
+                    mode = self.props[p].get('mode', -1)
+                    if mode != -1 and mode not in self.bevs:
+                        mode = -1
+                    e2 = self.expr(leaves, r.choice([1, 2]))
+                    body += [f"pbind {p} {mode} {self.expr(leaves, r.choice([1, 2]))}", f"pbind {p} {mode} {e2}"]
+                    self.props[p]['mode'] = mode
+                    self.props[p]['inputs'] = self.inputs_of(e2)
+            elif t == 'evall' and self.bevs:
+                body += [f"evalall {r.choice(self.bevs)}"]
+        return body
+
+    def op_cycle(self):
+        r = self.r
+        body = self.cycle_body()
+        if not body:
+            return
+        for _ in range(r.choice([2, 3])):
+            for l in body:
+                self.emit(l)
+        self.emit("heapmark")
+        for _ in range(r.choice([3, 5, 8])):
+            for l in body:
+                self.emit(l)
+        self.emit("heapcheck")
+
     def generate(self):
         r = self.r
         for _ in range(r.choice([2, 3, 4])):
@@ -312,7 +390,7 @@ class Gen:
         fam = dict(new=self.op_new, set=self.op_set, get=self.op_get, obs=self.op_obs, bindI=self.op_bindI,
                    bindE=self.op_bindE, reset=self.op_reset, dele=self.op_dele, move=self.op_move, evall=self.op_evall,
                    bev=self.op_bev, hold=self.op_hold, unobs=self.op_unobs, fault=self.op_fault, user=self.op_user,
-                   rebind=self.op_rebind)
+                   rebind=self.op_rebind, cycle=self.op_cycle)
         names = [k for k, v in self.p.items() if v > 0 and k in fam]
         weights = [self.p[k] for k in names]
         guard = 0
@@ -320,6 +398,8 @@ class Gen:
         while len(self.lines) - start < self.length and guard < 30 * self.length:
             guard += 1
             fam[r.choices(names, weights)[0]]()
+        if self.p.get('cycle'):
+            self.op_cycle()
         return "\n".join(self.lines) + "\n"
 
 
